@@ -10,8 +10,8 @@ def jobs(tier):
     q = tier == "quick"
     # per core under ASan: soft clip ~1500 cases/s, gain ~80 cases/s (each case: 1-2 encoders, 2-12 packets, 4 decoders)
     return [
-        Job(S, "flt-asan", "random", workers=W, cases=6000 if q else 150000, maxtime=150 if q else 1200),
-        Job(G, "flt-asan", "random", workers=W, cases=500 if q else 12000, maxtime=240 if q else 2400),
+        Job(S, "flt-asan", "random", workers=W, cases=8000 if q else 150000, maxtime=150 if q else 1200),
+        Job(G, "flt-asan", "random", workers=W, cases=800 if q else 12000, maxtime=240 if q else 2400),
     ]
 
 
@@ -51,7 +51,7 @@ TEXT = dict(
     technique="property-based testing: generated float buffers against the soft clipper's contract (range, bit-exact pass-through, sign, "
               "metamorphic interleaved-vs-per-channel relation over frame sequences); twin-decoder metamorphic test of OPUS_SET_GAIN over "
               "encoder-generated packet streams with loss, FEC, spliced encoders, gain changes and arch caps",
-    level="Exploration: seeded random generation (quick: 9.6e4 soft-clip sequences and 8e3 decoded streams; thorough: 2.4e6 and 1.9e5); "
+    level="Exploration: seeded random generation (quick: 1.3e5 soft-clip sequences and 1.3e4 decoded streams; thorough: 2.4e6 and 1.9e5); "
           "no exhaustive part.",
     note="Trusted: IEEE single-precision multiply in the harness equals the decoder's (no fast-math in the flt-asan variant), ASan/UBSan, "
          "the encoder as a source of valid packets. Soft-clip continuity across calls is only covered through the interleaved/per-channel "
